@@ -1322,7 +1322,14 @@ class System:
         else:
             # Else, the last added module wins
             self._remove(first)
-            self.unprocessed_modules.remove(first)
+            # The modules below a replaced package are gone with it: they must not
+            # be processed, their objects would be registered without being reachable.
+            dropped: List[_ModuleT] = [first]
+            while dropped:
+                m = dropped.pop()
+                if m in self.unprocessed_modules:
+                    self.unprocessed_modules.remove(m)
+                dropped.extend(c for c in m.contents.values() if isinstance(c, Module))
             if first in self.rootobjects:
                 self.rootobjects.remove(first)
             self._addUnprocessedModule(dup)
